@@ -234,8 +234,15 @@ def scenario_t(position, duration, after):
       if duration == 'never':
         while True:
           try:
-            time.sleep(50.0)
+            time.sleep(1.0 if after == 'lateattach' else 50.0)
           except threads_mod.ThreadTerminationError:
+            if after == 'lateattach':
+              # clean-up code that survives the termination request and files a dump -- while a later phase is running
+              while not any(e[0] == 'teardown' for e in log):
+                time.sleep(0.5)
+              test.attach('late_dump', b'state of the abandoned phase')
+              log.append(('late-attach', time.monotonic()))
+              return None
             if after != 'profiled':
               raise
             # (profiled config: a body stuck where the termination request cannot end it; it goes away with the run)
@@ -265,6 +272,9 @@ def scenario_t(position, duration, after):
 
     def td(test):
       log.append(('teardown', time.monotonic()))
+      if after == 'lateattach':
+        test.attach('td_own', b'teardown data')
+        time.sleep(5.0)            # still the running phase when the abandoned body files its dump
 
     class P(h.plugs.BasePlug):
 
@@ -334,7 +344,7 @@ def scenario_t(position, duration, after):
     return {'ok': ok, 'outcome': rec.outcome.name, 'log': log, 't_begin': t_begin, 't_end': t_end,
             'phases': [(p.name, p.outcome.name, type(p.result.phase_result).__name__ if p.result.phase_result is not None else 'TIMEOUT',
                         {k: m.outcome.name for k, m in p.measurements.items()}) for p in rec.phases],
-            'timeout': TIMEOUT}
+            'attachments': {p.name: sorted(p.attachments) for p in rec.phases}, 'timeout': TIMEOUT}
 
   return fn
 
@@ -463,6 +473,10 @@ def check_t(cfg):
       if nxt - t0 > allowance:
         out.append(('T:%s:late' % tag, 'executor proceeded %.1fs after the phase started (timeout %.1fs, allowance %.1fs)'
                     % (nxt - t0, T, allowance), rep))
+      for pname, atts in v.get('attachments', {}).items():
+        if pname != 'timed' and 'late_dump' in atts:
+          out.append(('T:%s:zombie-attribution' % tag, 'the attachment filed by the abandoned body landed in the record of phase %s: %r'
+                      % (pname, atts), rep))
       # nothing the abandoned body does later is attributed to another phase
       for p in v['phases']:
         if p[0] != 'timed' and (p[3].get('m') not in (None, 'UNSET') or p[3].get('mon') not in (None, 'UNSET')):
@@ -480,7 +494,7 @@ def t_configs(tier):
     cfgs += [(pos, 9.5, 'none'), (pos, 'never', 'none')]
   cfgs += [('plain', 9.999, 'fail'), ('plain', 25.0, 'measure'), ('main', 25.0, 'measure'), ('plain', 9.5, 'raise'), ('main', 9.5, 'raise'),
            ('monitored', 'never', 'none'), ('main', 'never', 'repeat2'), ('plain', 6.0, 'repeat_ok'),
-           ('main', 'never', 'diagraise'), ('main', 'never', 'profiled'), ('nested_td', 'never', 'none')]
+           ('main', 'never', 'diagraise'), ('main', 'never', 'profiled'), ('nested_td', 'never', 'none'), ('main', 'never', 'lateattach')]
   if tier == 'thorough':
     cfgs += [('plain', 10.5, 'measure'), ('teardown', 25.0, 'fail'), ('main', 9.999, 'measure')]
   return cfgs
@@ -489,13 +503,28 @@ def t_configs(tier):
 def run(tier):
   rep = common.Report(PID, tier, 'model_checking')
   kb = 3 if tier == 'quick' else 5
-  explore.set_plan(common.thorough_budget(tier, 900.0), len(K_MODES) + len(t_configs(tier)))
+  explore.set_plan(common.thorough_budget(tier, 900.0), len(K_MODES) + len(t_configs(tier)) + 1)
   for mode in K_MODES:
     r = explore.explore('K:' + mode, lambda ch, mode=mode: execute_k(mode, ch), check_k(mode), kb, cap=400000)
     rep.merge_violations(r['violations'])
     rep.add_part('K %s' % mode, states=max(1, r['states']), transitions=r['steps'], traces_validated_against_impl=r['executions'],
                  deviation_bound=kb, distinct_outcomes=len(r['outcomes']), exhaustive=not r['capped'],
                  decision_points_default=r['default_points'], samples=r['samples'] or [{'choices': []}])
+  # a termination request made through the phase executor (PhaseExecutor.stop(), as an abort does) before the phase thread
+  # was started prevents the body: C04's scenario with phase functions that take no arguments, judged for that rule only
+  from vf.harness import c04  # pylint: disable=g-import-not-at-top
+  acfg = ('plain3_noarg', 1, 'thread', 'wide')
+
+  def a_check(ex):
+    return [('A:%s' % k, '%s (events %r)' % (w, [e[:3] for e in ex.result['events'] if e[0] != 'line'][:30]),
+             {'part': 'A', 'cfg': list(acfg), 'choices': ex.choices})
+            for k, w in c04.analyse(acfg, ex) if k.startswith(('started-after-abort', 'started-after-kill-request'))]
+
+  r = explore.explore('A:stop-before-start', lambda ch: c04.execute(acfg, ch), a_check, 0, cap=60000)
+  rep.merge_violations(r['violations'])
+  rep.add_part('A stop requested around the start of a phase thread', states=max(1, r['states']), transitions=r['steps'],
+               traces_validated_against_impl=r['executions'], deviation_bound=0, distinct_outcomes=len(r['outcomes']),
+               exhaustive=not r['capped'], decision_points_default=r['default_points'], samples=r['samples'] or [{'choices': []}])
   tb = 2 if tier == 'quick' else 3
   for ci, cfg in enumerate(t_configs(tier)):
     tb = (2 if ci in (0, 1, 8) else 1) if tier == 'quick' else 3
@@ -516,7 +545,13 @@ def run(tier):
 
 def replay(art):
   r = art['replay']
-  if r['part'] == 'K':
+  if r['part'] == 'A':
+    from vf.harness import c04  # pylint: disable=g-import-not-at-top
+    acfg = tuple(r['cfg'])
+    ex = c04.execute(acfg, r['choices'])
+    bad = [(k, w) for k, w in c04.analyse(acfg, ex) if k.startswith(('started-after-abort', 'started-after-kill-request'))]
+    print('events', [e[:3] for e in ex.result['events'] if e[0] != 'line'])
+  elif r['part'] == 'K':
     ex = execute_k(r['mode'], r['choices'])
     bad = check_k(r['mode'])(ex)
     print('events', [e[0] for e in ex.result['events']])
